@@ -52,6 +52,7 @@ type Contract struct {
 	Pure     bool     // function has no effect on modelled heap (implies modifies nothing)
 	Timeout  int      // per-obligation solver time limit override (seconds)
 	Locks    int      // >0: the function may block on locks of this level or higher
+	Invokes  string   // schema contract: calls this function-typed parameter exactly once and returns its result
 	NonBlocking []string // lock classes (Struct.field) whose acquisition in this function is assumed not to block
 	GhostMaps []string // fresh uninterpreted Int->Int maps available in the ensures clauses (per call site)
 	Ghost    []string // misc flags
@@ -317,6 +318,10 @@ func (cs *ContractSet) ParseContractText(file, pkgPath, pkgName, text string) {
 					cur.NonBlocking = append(cur.NonBlocking, pkgName+"."+f[0])
 					cs.Trust = append(cs.Trust, fmt.Sprintf("%s: acquisition of %s assumed non-blocking: %s", cur.Key, f[0], strings.Join(f[1:], " ")))
 				}
+			}
+		case "invokes":
+			if cur != nil {
+				cur.Invokes = strings.TrimSpace(rest)
 			}
 		case "locks":
 			n, _ := strconv.Atoi(rest)
